@@ -194,6 +194,9 @@ theorem acct_step_finish {s : State} (h : Inv s) (pid : Nat)
     (hrun : ∀ p v, s.getProc pid = some p → p.result ≠ some (.ok v)) : Inv (finish s pid).1 :=
   (good_finish h pid hrun).inv
 
+theorem acct_step_notifyAwaiters {s : State} (h : Inv s) (pid : Nat) : Inv (notifyAwaiters s pid) :=
+  (good_notifyAwaiters h pid).inv
+
 /-! ## consequences at slice boundaries (nothing in transit) -/
 
 /-- **positive_iff_reachable** — what `check_refcounts` tests: a slot is counted exactly when
